@@ -134,6 +134,16 @@ type Contracts struct {
 	Assumes     []string          // free-text assumptions declared in spec files
 	AssumeFile  map[string]string // assumption text -> declaring file
 	SMT         []string          // raw SMT prelude chunks
+	Coverage    []CoverageDecl    // "coverage exported-bytes C17": scope of a property stated over the package, not over tags
+}
+
+// CoverageDecl: every exported function or method of package Pkg that takes a []byte parameter must carry a contract
+// with a modifies clause tagged Prop (the property quantifies over "every exported function", so a function added without
+// a contract must not go unnoticed).
+type CoverageDecl struct {
+	Pkg, Kind, Prop string
+	File            string
+	Line            int
 }
 
 func newContracts() *Contracts {
@@ -146,11 +156,11 @@ func newContracts() *Contracts {
 var clauseKeywords = map[string]bool{
 	"func": true, "type": true, "tags": true, "mode": true, "requires": true, "modifies": true, "ensures": true,
 	"loop": true, "at": true, "ghost": true, "invariant": true, "pure": true, "axiom": true, "lemma": true,
-	"trusted": true, "panics": true, "noreturn": true, "params": true, "results": true, "skip": true, "sweep": true, "refines": true,
+	"trusted": true, "panics": true, "noreturn": true, "params": true, "results": true, "skip": true, "sweep": true, "refines": true, "coverage": true,
 	"ifaceghost": true, "assume-text": true, "opt": true, "smt": true, "replay": true, "intview": true, "lock": true, "lockinv": true, "rely": true, "globallock": true, "globallockinv": true,
 }
 
-var labelRe = regexp.MustCompile(`^\[([A-Za-z0-9_.\-]+)\]\s*`)
+var labelRe = regexp.MustCompile(`^\[([A-Za-z0-9_.\-+]+)\]\s*`)
 
 // qualify turns a contract key relative to pkg into the canonical key used by go/ssa's
 // Function.String(): "pkg.F", "(*pkg.T).M", "(pkg.T).M".
@@ -302,6 +312,12 @@ func (c *Contracts) loadFile(path, pkg string, trusted bool) error {
 			curF.NoReturn = true
 		case "skip":
 			curF.Skip = true
+		case "coverage":
+			fs := strings.Fields(rc.text)
+			if len(fs) != 2 || fs[0] != "exported-bytes" {
+				return fmt.Errorf("%s:%d: coverage exported-bytes <property>", path, rc.line)
+			}
+			c.Coverage = append(c.Coverage, CoverageDecl{Pkg: pkg, Kind: fs[0], Prop: fs[1], File: path, Line: rc.line})
 		case "sweep":
 			curF.Sweep = true
 		case "refines":
@@ -444,7 +460,7 @@ func (c *Contracts) loadFile(path, pkg string, trusted bool) error {
 				}
 				// zero occurrences are fine for `every`, a misspelt anchor kind is not
 				kind := strings.TrimPrefix(as.Anchor, "before ")
-				if f := strings.Fields(kind); len(f) == 0 || !map[string]bool{"call": true, "send": true, "recv": true, "close": true, "mapupdate": true, "mapdelete": true, "return": true, "go": true, "store": true, "select": true, "next": true}[f[0]] {
+				if f := strings.Fields(kind); len(f) == 0 || !map[string]bool{"call": true, "send": true, "recv": true, "close": true, "mapupdate": true, "mapdelete": true, "return": true, "go": true, "store": true, "select": true, "next": true, "entry": true}[f[0]] {
 					return fmt.Errorf("%s:%d: unknown anchor kind in `at every %s`", path, rc.line, as.Anchor)
 				}
 				if strings.HasPrefix(as.Anchor, "before ") && !map[string]bool{"call": true, "send": true, "recv": true, "close": true, "mapupdate": true, "mapdelete": true, "go": true}[strings.Fields(kind)[0]] {
